@@ -121,8 +121,45 @@ def adversarial_messages():
     return msgs
 
 
+ATOMS18 = ['wl_*', '*', '*_x', 'wl_surface', '5', '5a', '7B', '0', '-1', '1.5', 'nil', '"s"', '""', 'new', 'destroyed', 'x', 'A', 'B', 'unknown', 'pointer', 'key*', 'title', 'st*',
+           '1e999', 'inf', '99999999999999999999', '3é', 'é', '@5', '#5b', 'wl_a@5', '!', '']
+
+
+def gen_structured_matcher(d):
+    """grammar-shaped matcher text with adversarial atoms in every position: [conn:] [obj] [.name] [(items [! items])]"""
+    def atom():
+        a = d.choice(ATOMS18)
+        if d.chance(0.2):
+            a = '[' + a + d.choice([', ', ' ! ', ',', '!']) + d.choice(ATOMS18) + ']'
+        return a
+
+    def item():
+        k = d.int(0, 3)
+        if k == 0: return atom()
+        if k == 1: return atom() + '='
+        if k == 2: return atom() + '=' + atom()
+        return '[' + atom() + ', ' + atom() + '=' + atom() + ']'
+    pats = []
+    for _ in range(d.int(1, 3)):
+        p = ''
+        if d.chance(0.3): p += atom() + ': '
+        if d.chance(0.5): p += atom()
+        if d.chance(0.5): p += '.' + atom()
+        if d.chance(0.7) or not p:
+            p += '(' + ', '.join(item() for _ in range(d.int(0, 3)))
+            if d.chance(0.3): p += ' ! ' + ', '.join(item() for _ in range(d.int(1, 2)))
+            p += ')'
+        pats.append(p)
+    t = ', '.join(pats)
+    if d.chance(0.3):
+        t += ' ! ' + atom()
+    return t
+
+
 def gen_matcher_text(d):
-    k = d.int(0, 9)
+    k = d.int(0, 12)
+    if k >= 10:
+        return gen_structured_matcher(d)
     if k <= 5:
         n = d.int(1, 12)
         return ''.join(d.choice(WORDS) if d.chance(0.5) else d.text(MATCHER_ALPHA, 1, 3) for _ in range(n))
